@@ -26,6 +26,7 @@ define_language! {
         Ta(AppliedId, Slot) = "ta",
         W4(Slot, Slot, Slot, Slot) = "w4",
         V4(Slot, Slot, Slot, Slot) = "v4",
+        Lt(AppliedId, Bind<AppliedId>) = "lt",
     }
 }
 
@@ -49,6 +50,7 @@ define_language! {
     pub enum Lp {
         PU(AppliedId) = "pu",
         PV(Slot) = "pv",
+        PC(u32) = "pc",
         PNum(u32),
         PSym(Symbol),
     }
@@ -150,7 +152,7 @@ pub struct Weighted;
 impl CostFunction<Lb> for Weighted {
     type Cost = u64;
     fn cost<C>(&self, enode: &Lb, costs: C) -> u64 where C: Fn(Id) -> u64 {
-        let w: u64 = match enode { Lb::Var(_) => 1, Lb::App(..) => 3, Lb::Lam(_) => 2, Lb::K(..) => 5, Lb::U(_) => 1, Lb::J(..) => 4, Lb::T3(..) => 6, Lb::S3(..) => 7, Lb::M3(..) => 9, Lb::At(..) => 2, Lb::Ta(..) => 2, Lb::W4(..) => 8, Lb::V4(..) => 8 };
+        let w: u64 = match enode { Lb::Var(_) => 1, Lb::App(..) => 3, Lb::Lam(_) => 2, Lb::K(..) => 5, Lb::U(_) => 1, Lb::J(..) => 4, Lb::T3(..) => 6, Lb::S3(..) => 7, Lb::M3(..) => 9, Lb::At(..) => 2, Lb::Ta(..) => 2, Lb::W4(..) => 8, Lb::V4(..) => 8, Lb::Lt(..) => 2 };
         let mut s = w;
         for x in enode.applied_id_occurrences() {
             s = s.saturating_add(costs(x.id));
